@@ -23,7 +23,7 @@ ASSUMPTIONS = [
     "reference model (jslmc/refmodel.py) transcribes the documented dispatching semantics",
 ]
 BOUNDS = {
-    "quick": "K3 complete x 17 filter configs; K4[seed%16::16] x {none, 4 singles}; probes P x {none, dominated+non_idle}",
+    "quick": "K3 complete x 17 filter configs; K3r (machine lists in descending order) x 5 configs; K4[seed%16::16] x {none, 4 singles}; probes P x {none, dominated+non_idle}",
     "thorough": "K3, K4 complete x 17 filter configs (K4: none + 4 singles + pairs on [::4]); M3 x {none,dominated}; NF5[::8]; probes x 5 configs; TLC cross-check on 3 instances",
 }
 
@@ -36,6 +36,8 @@ def cases(tier, seed):
     out = []
     for spec in F.K3():
         out.append(("tree", spec, tuple(CFG17)))
+    for spec in F.K3r():
+        out.append(("tree", spec, tuple(CFG5)))
     if tier == "quick":
         for spec in F.sliced(F.K4(), seed % 16, 16):
             out.append(("tree", spec, tuple(CFG5)))
@@ -108,6 +110,27 @@ def run_tree(res, spec, filters):
                 check, "is_complete-wrong", sig=sig, spec=spec, filters=filters,
                 history=hist, observed=complete, n_dispatched=len(hist), n_ops=ref.N,
             )
+        # a further episode on a dispatcher that was reset at this point: the
+        # same clauses must hold (feasible after every step, complete exactly
+        # after one accepted dispatch per operation)
+        if hist and (len(hist) == ref.N or len(hist) == 1):
+            d2 = impl.mk_dispatcher(live.inst, filters)
+            impl.replay(d2, hist)
+            d2.reset()
+            h2 = hist if len(hist) == ref.N else next(ref.all_histories())
+            for k, c in enumerate(h2, start=1):
+                if d2.schedule.is_complete():
+                    res.violation(check, "is_complete-wrong-after-reset", sig=sig, spec=spec, filters=filters, history=hist, second_episode=h2[: k - 1])
+                    break
+                impl.dispatch(d2, *c)
+                res.add("transitions")
+                e2 = feasibility_errors(ref, impl.snap_schedule(d2.schedule))
+                if e2:
+                    res.violation(check, "infeasible-after-reset", sig=sig, spec=spec, filters=filters, history=hist, second_episode=h2[:k], errors=e2[:4])
+                    break
+            else:
+                if not d2.schedule.is_complete():
+                    res.violation(check, "is_complete-wrong-after-reset", sig=sig, spec=spec, filters=filters, history=hist, second_episode=h2)
         return None
 
     fp_before = []
